@@ -1,6 +1,6 @@
 use crate::{
     base64_hash, decode, sd_jwt_parts,
-    utils::{drop_kb, remove_digests, restore_disclosures},
+    utils::{declared_hash_alg, drop_kb, remove_digests, restore_disclosures},
     Error, HashAlgorithm, KeyForDecoding, Validation,
 };
 use base64::Engine;
@@ -63,9 +63,7 @@ impl Verifier {
             ));
         }
 
-        let hash_alg = match HashAlgorithm::try_from(claims["_sd_alg"].as_str().ok_or(
-            Error::SDJWTRejected("Issuer SD JWT must contain _sd_alg claim".to_string()),
-        )?) {
+        let hash_alg: HashAlgorithm = match declared_hash_alg(&claims) {
             Ok(alg) => alg,
             Err(e) => {
                 return Err(Error::InvalidHashAlgorithm(e.to_string()));
@@ -133,8 +131,7 @@ impl Verifier {
         let (header, claims, disclosures) =
             Verifier::verify_raw(issuer_token, key, validation, kb_validation)?;
         let mut updated_claims = claims.clone();
-        let algorithm = claims["_sd_alg"].as_str().unwrap_or("");
-        let algorithm = HashAlgorithm::try_from(algorithm)?;
+        let algorithm: HashAlgorithm = declared_hash_alg(&claims)?;
         let mut disclosure_paths = Vec::new();
         restore_disclosures(
             &mut updated_claims,
